@@ -25,8 +25,12 @@
 (***************************************************************************)
 EXTENDS Integers, Sequences, FiniteSets, TLC
 
-CONSTANTS N, Spec_, MaxCancel, MaxRerun
+CONSTANTS N, Spec_, MaxCancel, MaxRerun, MaxLoss, Dev
 \* Spec_ : sequence of [dep, designated, old]
+\* MaxLoss : submissions (transactions, update requests) that never reach the pool - unfair Lose actions, finitely many.
+\*           The monitor of the stage is reset when the tracked transaction passed its ValidUntilBlock unconfirmed
+\*           (util.go:178-184), so a lost submission is simply no longer pending and the loop sends again.
+\* Dev     : deviation switch "StickyPending": the monitor stays pending after such an expiry.
 
 Members   == 0..(N - 1)
 Maj       == N - ((N - 1) \div 2)
@@ -40,8 +44,11 @@ VARIABLES
   owner,   \* owner[c]: member owning the NNS domain (-1: not registered)
   pool,    \* simple transactions [k, c, by, run]
   upd,     \* upd[c]: signers of the shared update transaction (notary request); -1-marker {} = none
-  pc, upToDate, alive, run, cancels, fin, reruns, late
-vars == <<cons, ver, recs, owner, pool, upd, pc, upToDate, alive, run, cancels, fin, reruns, late>>
+  pc, upToDate, alive, run, cancels, fin, reruns, late,
+  losses,  \* number of losses so far
+  stuck    \* [k, c, by, run] whose monitor stayed pending after the loss ("StickyPending" only)
+lvars == <<losses, stuck>>
+vars == <<cons, ver, recs, owner, pool, upd, pc, upToDate, alive, run, cancels, fin, reruns, late, losses, stuck>>
 
 Init ==
   /\ cons = {<<c, Spec_[c].dep>> : c \in {c \in Contracts : Spec_[c].old}}
@@ -51,8 +58,10 @@ Init ==
   /\ pool = {} /\ upd = [c \in Contracts |-> {}]
   /\ pc = [i \in Members |-> 1] /\ upToDate = [i \in Members |-> FALSE] /\ alive = [i \in Members |-> TRUE]
   /\ run = [i \in Members |-> 0] /\ cancels = 0 /\ fin = FALSE /\ reruns = 0 /\ late = FALSE
+  /\ losses = 0 /\ stuck = {}
 
-Pending(i, k, c) == \E t \in pool : t.k = k /\ t.c = c /\ t.by = i /\ t.run = run[i]
+Stuck(i, k, c)   == \E t \in stuck : t.k = k /\ t.c = c /\ t.by = i /\ t.run = run[i]
+Pending(i, k, c) == Stuck(i, k, c) \/ \E t \in pool : t.k = k /\ t.c = c /\ t.by = i /\ t.run = run[i]
 Tx(k, c, i) == [k |-> k, c |-> c, by |-> i, run |-> run[i]]
 
 Return(i)  == pc' = [pc EXCEPT ![i] = @ + 1] /\ upToDate' = [upToDate EXCEPT ![i] = FALSE] /\ UNCHANGED <<pool, upd>>
@@ -78,7 +87,7 @@ Iter(i) ==
          THEN IF ver[c] = 1                                         \* test invocation of update: "already updated"
               THEN IF ~missing THEN Return(i)
                    ELSE upToDate' = [upToDate EXCEPT ![i] = TRUE] /\ UNCHANGED <<pc, pool, upd>>
-              ELSE IF i \in upd[c] THEN Continue(i)                 \* updateTxMonitor pending
+              ELSE IF i \in upd[c] \/ Stuck(i, "update", c) THEN Continue(i)   \* updateTxMonitor pending
               ELSE /\ upd' = [upd EXCEPT ![c] = @ \cup {i}]         \* notary request on the shared main transaction
                    /\ pool' = IF Cardinality(upd'[c]) >= Maj THEN pool \cup {[k |-> "update", c |-> c, by |-> -1, run |-> 0]} ELSE pool
                    /\ UNCHANGED <<pc, upToDate>>
@@ -86,7 +95,7 @@ Iter(i) ==
          ELSE SendTx(i, Tx("register", c, i))
   /\ late' = (late \/ (fin /\ (pool' # pool \/ upd' # upd)))
   /\ fin' = (fin \/ \A j \in Members : pc'[j] = DonePc)
-  /\ UNCHANGED <<cons, ver, recs, owner, alive, run, cancels, reruns>>
+  /\ UNCHANGED <<cons, ver, recs, owner, alive, run, cancels, reruns, lvars>>
 
 Include(t) ==
   /\ t \in pool
@@ -105,25 +114,37 @@ Include(t) ==
             IN  /\ owner' = IF free THEN [owner EXCEPT ![t.c] = t.by] ELSE owner
                 /\ recs' = IF mine /\ rec \notin recs[t.c] THEN [recs EXCEPT ![t.c] = @ \cup {rec}] ELSE recs
                 /\ UNCHANGED <<cons, ver, upd>>
-  /\ UNCHANGED <<pc, upToDate, alive, run, cancels, fin, reruns, late>>
+  /\ UNCHANGED <<pc, upToDate, alive, run, cancels, fin, reruns, late, lvars>>
+
+Stick(x) == IF "StickyPending" \in Dev THEN stuck \cup {x} ELSE stuck
+Lose(t) ==
+  /\ t \in pool /\ t.k # "update" /\ losses < MaxLoss
+  /\ pool' = pool \ {t} /\ losses' = losses + 1 /\ stuck' = Stick(t)
+  /\ UNCHANGED <<cons, ver, recs, owner, upd, pc, upToDate, alive, run, cancels, fin, reruns, late>>
+\* the update request of member i (its signature on the shared main transaction) never reaches the notary pool
+LoseUpd(i, c) ==
+  /\ i \in upd[c] /\ losses < MaxLoss /\ ~\E t \in pool : t.k = "update" /\ t.c = c
+  /\ upd' = [upd EXCEPT ![c] = @ \ {i}] /\ losses' = losses + 1
+  /\ stuck' = Stick([k |-> "update", c |-> c, by |-> i, run |-> run[i]])
+  /\ UNCHANGED <<cons, ver, recs, owner, pool, pc, upToDate, alive, run, cancels, fin, reruns, late>>
 
 Cancel(i) ==
   /\ alive[i] /\ pc[i] < DonePc /\ cancels < MaxCancel
   /\ alive' = [alive EXCEPT ![i] = FALSE] /\ cancels' = cancels + 1
-  /\ UNCHANGED <<cons, ver, recs, owner, pool, upd, pc, upToDate, run, fin, reruns, late>>
+  /\ UNCHANGED <<cons, ver, recs, owner, pool, upd, pc, upToDate, run, fin, reruns, late, lvars>>
 Restart(i) ==
   /\ ~alive[i]
   /\ alive' = [alive EXCEPT ![i] = TRUE] /\ pc' = [pc EXCEPT ![i] = 1] /\ upToDate' = [upToDate EXCEPT ![i] = FALSE]
   /\ run' = [run EXCEPT ![i] = @ + 1]
   /\ upd' = [c \in Contracts |-> upd[c] \ {i}]          \* the fresh run's monitor is not pending: it may sign again
-  /\ UNCHANGED <<cons, ver, recs, owner, pool, cancels, fin, reruns, late>>
+  /\ UNCHANGED <<cons, ver, recs, owner, pool, cancels, fin, reruns, late, lvars>>
 Rerun(i) ==
   /\ fin /\ pc[i] = DonePc /\ reruns < MaxRerun
   /\ pc' = [pc EXCEPT ![i] = 1] /\ run' = [run EXCEPT ![i] = @ + 1] /\ reruns' = reruns + 1
-  /\ UNCHANGED <<cons, ver, recs, owner, pool, upd, upToDate, alive, cancels, fin, late>>
+  /\ UNCHANGED <<cons, ver, recs, owner, pool, upd, upToDate, alive, cancels, fin, late, lvars>>
 
-Next == \/ \E i \in Members : Iter(i) \/ Cancel(i) \/ Restart(i) \/ Rerun(i)
-        \/ \E t \in pool : Include(t)
+Next == \/ \E i \in Members : Iter(i) \/ Cancel(i) \/ Restart(i) \/ Rerun(i) \/ \E c \in Contracts : LoseUpd(i, c)
+        \/ \E t \in pool : Include(t) \/ Lose(t)
 Spec == Init /\ [][Next]_vars /\ WF_vars(\E t \in pool : Include(t))
         /\ \A i \in Members : WF_vars(Iter(i)) /\ WF_vars(Restart(i))
 
